@@ -113,7 +113,7 @@ EntryR(s, ret, vec, cyc, row) ==
               wr  == << <<fa, s.ccr>>, <<fa + 1, ret \div P16>>, <<fa + 2, (ret \div 256) % 256>>, <<fa + 3, ret % 256>> >>
           IN IF \E i \in 0..3 : fa + i \in va..(va + 3) THEN AnyR(s, row)    \* frame overwrites its own vector
              ELSE Res("ok", [s.er EXCEPT ![7] = sp1], CcrWith(s.ccr, -1, -1, -1, -1, -1) - Bit(s.ccr, 7) * 128 + 128,
-                      191, tgt, {wr}, cyc, <<>>, row, FALSE)
+                      191, tgt, {wr}, cyc, <<>>, row, \E i \in 0..3 : IsPortReg(fa + i))    \* a frame pushed into port registers: C16's business
 
 (* ---- UTF-8 validity of a byte sequence (MES write, C14), local formulation -- *)
 IsCont(b) == b >= 128 /\ b <= 191
